@@ -296,6 +296,14 @@ func c13StrayInitAckScenario(il, enabled, strayZC, realZC bool, strayInit ...boo
 				stray.rawChunk(iack(strayZC))
 				p.inject(stray.bytes(true))
 			}
+			if len(strayInit) > 2 && strayInit[2] {
+				// an INIT-ACK that declares acceptance but carries no State Cookie: it is refused, T1-init
+				// runs on and the INIT is sent again - with a correct CRC32c, like every INIT
+				ps := [][]byte{wTLVBytes(0x8008, []byte{130, 192, 64, 194}[:map[bool]int{false: 2, true: 4}[il]], false), wTLVBytes(0x8001, u32(1), true)}
+				p.inject(p.pkt(chunkBytes(wINITACK, 0, wInitVal(p.tag, p.arwnd, 65535, 65535, p.tsn0, ps...))))
+				m.Sleep(1500 * time.Millisecond)
+				p.settle(0)
+			}
 			evGenuine := len(m.W.events) // what the endpoint sends from here on follows the genuine INIT-ACK
 			out = p.inject(p.pkt(iack(realZC)))
 			gotEcho := false
@@ -317,6 +325,14 @@ func c13StrayInitAckScenario(il, enabled, strayZC, realZC bool, strayInit ...boo
 				c03Teardown(m, p)
 				return
 			}
+			if len(strayInit) > 1 && strayInit[1] {
+				// a delayed INIT of an earlier incarnation of the peer, declaring acceptance, reaches the
+				// established association: it is refused, and it changes nothing about what is sent
+				ps := [][]byte{wTLVBytes(0x8008, []byte{130, 192, 64, 194}[:map[bool]int{false: 2, true: 4}[il]], false), wTLVBytes(0x8001, u32(1), true)}
+				old := wNewPacket(5000, 5000, 0)
+				old.rawChunk(chunkBytes(wINIT, 0, wInitVal(p.tag+77, p.arwnd, 65535, 65535, p.tsn0+1000, ps...)))
+				p.inject(old.bytes(true))
+			}
 			p.inject(p.pkt(chunkBytes(wHEARTBEAT, 0, wTLVBytes(1, []byte("12345678"), true))))
 			s, _ := p.a.OpenStream(2, PayloadTypeWebRTCBinary)
 			s.WriteSCTP(payload(2, 0, 300), PayloadTypeWebRTCBinary)
@@ -330,6 +346,9 @@ func c13StrayInitAckScenario(il, enabled, strayZC, realZC bool, strayInit ...boo
 					}
 					if !d.CksumZero && !d.CksumOK {
 						m.Failf("cksum.emit", "endpoint emitted a wrong CRC32c")
+					}
+					if t := d.Chunks[0].Typ; d.CksumZero && (t == wINIT || t == wCOOKIEECHO) {
+						m.Failf("cksum.emit", "endpoint emitted %s with a zero checksum", d.Summary())
 					}
 				}
 			}
@@ -421,6 +440,10 @@ func propC13(j *Job) {
 			for _, zz := range [][2]bool{{true, false}, {false, true}, {true, true}} {
 				j.Explore(fmt.Sprintf("stray-initack/il%v/en%v/stray%v/real%v", il, en, zz[0], zz[1]), c13StrayInitAckScenario(il, en, zz[0], zz[1]), Budget{}, nil)
 				j.Explore(fmt.Sprintf("stale-init/il%v/en%v/stale%v/real%v", il, en, zz[0], zz[1]), c13StrayInitAckScenario(il, en, zz[0], zz[1], true), Budget{}, nil)
+				if !zz[1] {
+					j.Explore(fmt.Sprintf("late-init/il%v/en%v", il, en), c13StrayInitAckScenario(il, en, false, false, false, true), Budget{}, nil)
+				}
+				j.Explore(fmt.Sprintf("initack-nocookie/il%v/en%v/real%v", il, en, zz[1]), c13StrayInitAckScenario(il, en, false, zz[1], false, false, true), Budget{}, nil)
 			}
 		}
 	}
